@@ -81,9 +81,16 @@ impl Directory {
             // the preallocation here: otherwise the file could not be read back (or, if it is
             // the only file, the directory could not be opened at all).
             let last_filepath = filepath(dir_path, files.last());
+            #[cfg(feature = "verif-hooks")]
+            crate::verif_hooks::fault(crate::verif_hooks::Site::OpenFile)?;
             let last_file = OpenOptions::new().write(true).open(last_filepath)?;
             if last_file.metadata()?.len() < FILE_NUM_BYTES as u64 {
                 last_file.set_len(FILE_NUM_BYTES as u64)?;
+                #[cfg(feature = "verif-hooks")]
+                crate::verif_hooks::emit(|| crate::verif_hooks::Event::SetLen {
+                    name: files.last().filename(),
+                    len: FILE_NUM_BYTES as u64,
+                });
             }
             files
         } else {
